@@ -1,5 +1,7 @@
 import NomtModel.Store.ImgCheck
 import NomtModel.Store.ImgLemmas
+import NomtModel.Store.ConstantsFormats
+import NomtModel.Store.ConstantsAlloc
 /-!
 # C16 — the on-disk image always decodes to the abstract state
 
@@ -67,5 +69,79 @@ theorem T16_lookup (img : Image) (st : Stats) (h : wfImage img = .ok st) (k : Na
 
 /-- a concrete manifest round trip, evaluated by the kernel -/
 example : decodeMeta (encodeMeta sampleMeta) = some sampleMeta := by decide
+
+/-! ## the decoders' constants are the constants of the Rust source
+
+`Nomt.Gen.*` is generated from the current Rust sources by `tools/gen_constants.py` on every run;
+the facts are proved in `Store/ConstantsCheck.lean` by kernel evaluation. -/
+
+/-- T16.const (ties): page size, manifest size / magic / version, the leaf, overflow, free-list and
+branch constants, the elision threshold and the merkle page constants used by the decoders and by
+`wfImage` / `checkMerkle` equal the values extracted from the Rust source -/
+theorem T16_const_decoders :
+    PAGE = Gen.PAGE_SIZE ∧ PAGE = Gen.BRANCH_NODE_SIZE ∧ META_SIZE = Gen.META_SIZE ∧ MAGIC = Gen.META_MAGIC ∧
+    VERSION = Gen.META_VERSION ∧ LEAF_NODE_BODY_SIZE = Gen.LEAF_NODE_BODY_SIZE ∧
+    MAX_LEAF_VALUE_SIZE = Gen.MAX_LEAF_VALUE_SIZE ∧
+    MAX_OVERFLOW_CELL_NODE_POINTERS = Gen.MAX_OVERFLOW_CELL_NODE_POINTERS ∧
+    MAX_OVERFLOW_VALUE_SIZE = Gen.MAX_OVERFLOW_VALUE_SIZE ∧ OVERFLOW_BODY_SIZE = Gen.OVERFLOW_BODY_SIZE ∧
+    MAX_PNS_PER_FREELIST_PAGE = Gen.FREELIST_MAX_PNS_PER_PAGE ∧ BRANCH_HEADER = Gen.BRANCH_NODE_HEADER_SIZE ∧
+    PAGE_ELISION_THRESHOLD = Gen.PAGE_ELISION_THRESHOLD ∧ MAX_PAGE_DEPTH = Gen.MAX_PAGE_DEPTH ∧
+    NODES_PER_PAGE = Gen.NODES_PER_PAGE ∧ (32768 : Nat) = Gen.LEAF_OVERFLOW_BIT ∧
+    (∀ len id, (encodeRecordHeaderL len id).length = Gen.SEGLOG_HEADER_SIZE) :=
+  ⟨ConstantsCheck.page_size, ConstantsCheck.branch_node_size, ConstantsCheck.meta_size, ConstantsCheck.meta_magic,
+   ConstantsCheck.meta_version, ConstantsCheck.leaf_node_body_size, ConstantsCheck.max_leaf_value_size,
+   ConstantsCheck.max_overflow_cell_node_pointers, ConstantsCheck.max_overflow_value_size,
+   ConstantsCheck.overflow_body_size, ConstantsCheck.freelist_capacity, ConstantsCheck.branch_header,
+   ConstantsCheck.page_elision_threshold, ConstantsCheck.max_page_depth, ConstantsCheck.nodes_per_page,
+   ConstantsCheck.leaf_overflow_bit, ConstantsCheck.seglog_header_size⟩
+
+/-- T16.const (manifest): `decodeMeta` reads every field at the offset where `Meta::encode_to`
+writes it (offsets extracted from the Rust source; `encode_to` and `decode` agree — checked by the
+generator); the fields are consecutive from 0 to `META_SIZE` with widths 8 × u32, 16, 2 × u64, so no
+two overlap and all fit -/
+theorem T16_const_meta_layout (b : ByteArray) (h : ¬ b.size < Gen.META_SIZE) :
+    decodeMeta b = some
+      { magic := u32le b Gen.META_MAGIC_START, version := u32le b Gen.META_VERSION_START,
+        lnFreelistPn := u32le b Gen.META_LN_FREELIST_PN_START, lnBump := u32le b Gen.META_LN_BUMP_START,
+        bbnFreelistPn := u32le b Gen.META_BBN_FREELIST_PN_START, bbnBump := u32le b Gen.META_BBN_BUMP_START,
+        syncSeqn := u32le b Gen.META_SYNC_SEQN_START, bitboxNumPages := u32le b Gen.META_BITBOX_NUM_PAGES_START,
+        seed0 := u64le b Gen.META_BITBOX_SEED_START, seed1 := u64le b (Gen.META_BITBOX_SEED_START + 8),
+        rollbackStartLive := u64le b Gen.META_ROLLBACK_START_LIVE_START,
+        rollbackEndLive := u64le b Gen.META_ROLLBACK_END_LIVE_START } ∧
+    Gen.META_MAGIC_START = 0 ∧ Gen.META_MAGIC_END = Gen.META_VERSION_START ∧
+    Gen.META_VERSION_END = Gen.META_LN_FREELIST_PN_START ∧ Gen.META_LN_FREELIST_PN_END = Gen.META_LN_BUMP_START ∧
+    Gen.META_LN_BUMP_END = Gen.META_BBN_FREELIST_PN_START ∧ Gen.META_BBN_FREELIST_PN_END = Gen.META_BBN_BUMP_START ∧
+    Gen.META_BBN_BUMP_END = Gen.META_SYNC_SEQN_START ∧ Gen.META_SYNC_SEQN_END = Gen.META_BITBOX_NUM_PAGES_START ∧
+    Gen.META_BITBOX_NUM_PAGES_END = Gen.META_BITBOX_SEED_START ∧
+    Gen.META_BITBOX_SEED_END = Gen.META_ROLLBACK_START_LIVE_START ∧
+    Gen.META_ROLLBACK_START_LIVE_END = Gen.META_ROLLBACK_END_LIVE_START ∧
+    Gen.META_ROLLBACK_END_LIVE_END = Gen.META_SIZE ∧ Gen.META_SIZE ≤ Gen.PAGE_SIZE := by
+  have l := ConstantsCheck.meta_layout
+  exact ⟨ConstantsCheck.decode_meta_offsets b h, l.1, l.2.1, l.2.2.1, l.2.2.2.1, l.2.2.2.2.1, l.2.2.2.2.2.1,
+    l.2.2.2.2.2.2.1, l.2.2.2.2.2.2.2.1, l.2.2.2.2.2.2.2.2.1, l.2.2.2.2.2.2.2.2.2.1, l.2.2.2.2.2.2.2.2.2.2.1,
+    l.2.2.2.2.2.2.2.2.2.2.2.1, l.2.2.2.2.2.2.2.2.2.2.2.2.2⟩
+
+/-- T16.const (leaf / overflow): the largest overflow cell is not larger than the largest inline
+value and fits in a leaf next to its key; a leaf can hold two values of maximal inline size; overflow
+page = 4-byte header + body of `MAX_PNS` page numbers -/
+theorem T16_const_overflow_cell_fits :
+    8 + 32 + 4 * Gen.MAX_OVERFLOW_CELL_NODE_POINTERS ≤ Gen.MAX_LEAF_VALUE_SIZE ∧
+    2 + (32 + 2) + (8 + 32 + 4 * Gen.MAX_OVERFLOW_CELL_NODE_POINTERS) ≤ Gen.PAGE_SIZE ∧
+    2 + 2 * ((32 + 2) + Gen.MAX_LEAF_VALUE_SIZE) ≤ Gen.PAGE_SIZE ∧
+    Gen.OVERFLOW_HEADER_SIZE + Gen.OVERFLOW_BODY_SIZE = Gen.PAGE_SIZE ∧
+    Gen.OVERFLOW_MAX_PNS = Gen.OVERFLOW_BODY_SIZE / 4 :=
+  ⟨ConstantsCheck.overflow_cell_fits.1, ConstantsCheck.overflow_cell_fits.2, ConstantsCheck.leaf_layout.2.2.2.2,
+   ConstantsCheck.overflow_page_layout.1, ConstantsCheck.overflow_page_layout.2.1⟩
+
+/-- T16.const (elision): a page below the last level would hold at most `2^4 = 16` leaves, fewer
+than `PAGE_ELISION_THRESHOLD`: `checkMerkle` never has to expect a stored page deeper than
+`MAX_PAGE_DEPTH`; a merkle page (nodes, elided-children bits, page id) fits in a page -/
+theorem T16_const_last_level_elided :
+    2 ^ (256 - Gen.DEPTH * Gen.MAX_PAGE_DEPTH) < Gen.PAGE_ELISION_THRESHOLD ∧
+    256 - Gen.DEPTH * Gen.MAX_PAGE_DEPTH = 4 ∧
+    Gen.NODES_PER_PAGE = 2 ^ (Gen.DEPTH + 1) - 2 ∧
+    32 * Gen.NODES_PER_PAGE + Gen.NUM_CHILDREN / 8 + 32 ≤ Gen.PAGE_SIZE :=
+  ⟨ConstantsCheck.last_level_elided.1, ConstantsCheck.last_level_elided.2,
+   ConstantsCheck.merkle_page_layout.1, ConstantsCheck.merkle_page_layout.2.1⟩
 
 end Nomt.C16
